@@ -195,6 +195,12 @@ static int parse_alu_3(
     rn = operands[1].value;
     immediate = compute_immediate(operands[2].value);
     i = 1;
+
+    if (immediate == -1)
+    {
+      printf("Error: Can't create a constant for immediate value %d at %s:%d\n", operands[2].value, asm_context->tokens.filename, asm_context->tokens.line);
+      return -1;
+    }
   }
     else
   if (operand_count == 4 &&
@@ -326,6 +332,12 @@ static int parse_alu_2(
 
     immediate = compute_immediate(operands[1].value);
     i = 1;
+
+    if (immediate == -1)
+    {
+      printf("Error: Can't create a constant for immediate value %d at %s:%d\n", operands[1].value, asm_context->tokens.filename, asm_context->tokens.line);
+      return -1;
+    }
   }
     else
   if (operand_count == 3 &&
